@@ -499,6 +499,28 @@ def reindex(prog, run):
             idx_ok = idx is not None and isinstance(idx, ast.Call) and astq.callee_name(prog, fi, idx).endswith("flatten_sns_names")
             if base_ok and idx_ok:
                 ok = True
+        if not ok:
+            # re-ordering by POSITION: table.to_numpy()[table.index.get_indexer(names)] takes, for each name in turn, the row of the table that
+            # carries it.  The reverse call - Index(names).get_indexer(table.index) - gives for each ROW its place among the names: used as a
+            # gather index it applies the inverse permutation (right only for permutations that are their own inverse)
+            gi = [c for c in ast.walk(x) if isinstance(c, ast.Call) and isinstance(c.func, ast.Attribute) and c.func.attr == "get_indexer" and len(c.args) == 1]
+            verdicts = []
+            for c in gi:
+                recv, arg = astq.src(c.func.value, 300), c.args[0]
+                arg_names = isinstance(arg, ast.Call) and astq.callee_name(prog, fi, arg).endswith("flatten_sns_names")
+                recv_names = "flatten_sns_names" in recv
+                recv_table = sheet in recv and ".index" in recv
+                arg_table = sheet in astq.src(arg, 300)
+                if recv_table and arg_names and not recv_names:
+                    verdicts.append(True)
+                elif recv_names and arg_table:
+                    verdicts.append(False)
+            if verdicts:
+                ok = all(verdicts)
+                if not ok:
+                    why = why + " - the positions of the table's rows among the names, used to gather rows: the inverse of the re-ordering"
+            elif not calls:
+                ok = None if gi or "flatten_sns_names" in astq.src(x, 2000) else False
         run.ob("R-reindex", fi.qual, f"returned '{sheet}' is re-indexed by the sensor names", ok, f"`{why}`", witness=why[:80], file=f, node=r)
     fi2 = prog.func(GEO[1])
     f2 = rel(prog.mods[fi2.mod].path)
